@@ -8,9 +8,8 @@ ARBITRARY set-valued operators `∂f` (no convexity needed for the fixed-point s
 
 NOT proved (said once, also in the evidence): that the non-smooth solvers CONVERGE; exactness
 of CG after dimension-many steps (`cg_exact_after_dim`: needs mutual conjugacy of all
-directions, not attempted); the fixed-point characterisation of `douglas_rachford_pd` (its
-fixed points are pre-images of KKT points under the resolvent of the skew operator; the
-solver is modelled, tied to the code and tested, see tools/harness/c12.py).
+directions, not attempted); the converse half of the fixed-point characterisation of
+`douglas_rachford_pd` (see `C12.douglas_rachford_pd_fixed_point_partial`).
 -/
 import OdlModel.Model.Solvers
 import OdlModel.Lemmas.Solvers
@@ -20,6 +19,7 @@ import Mathlib.Analysis.InnerProductSpace.PiL2
 import Mathlib.Tactic.Linarith
 import Mathlib.Tactic.Ring
 import Mathlib.Tactic.Module
+import Mathlib.Tactic.LinearCombination
 import Mathlib.Tactic.NormNum
 
 open OdlModel.Solvers
@@ -311,6 +311,83 @@ theorem C12.forward_backward_pd_fixed_point_iff (m : Nat) (L : Nat → X → Y) 
     have hx' : proxF (s.x - τ • T) = s.x := (hF _ _).mpr (by rw [e1]; exact hx)
     rw [hx', ey]
     exact ⟨rfl, fun i => (hG i _ _).mpr (by rw [e2 i]; exact hv i)⟩
+
+/-- Douglas–Rachford primal–dual (`m ≥ 1` linear operators, `l = None`, constant `lam ≠ 0`): if
+the loop body leaves the governing pair `(x, v)` unchanged, then the point `p1` that the solver
+shows to the callback / returns, together with the dual points `p2_i` it computes, satisfies the
+optimality conditions `−Σ L_i* p2_i ∈ ∂f(p1)` and `L_i p1 ∈ ∂g_i*(p2_i)`.
+PARTIAL: the converse (every KKT pair is `(p1, p2)` of some fixed governing pair `(x, v)`,
+namely the solution of `x = p1 − τ/2 Σ L_i*(2 p2_i − v_i)`, `v_i = p2_i + σ_i/2 L_i x`) is not
+proved. -/
+theorem C12.douglas_rachford_pd_fixed_point_partial (m : Nat) (hm : m ≠ 0) (L : Nat → X →ₗ[ℝ] Y)
+    (Lt : Nat → Y →ₗ[ℝ] X) (proxF : X → X) (proxGc : Nat → Y → Y) (τ lam : ℝ) (σ : Nat → ℝ)
+    (hτ : τ ≠ 0) (hlam : lam ≠ 0) (hσ : ∀ i, σ i ≠ 0) (subF : X → Set X) (subGc : Nat → Y → Set Y)
+    (hF : IsProx proxF τ subF) (hG : ∀ i, IsProx (proxGc i) (σ i) (subGc i))
+    (zeroV : X) (s : DrS X Y)
+    (hx : (DrP.step ⟨m, fun i => ⇑(L i), fun i => ⇑(Lt i), proxF, proxGc, τ, σ, lam⟩ zeroV s).x = s.x)
+    (hv : ∀ i, (DrP.step ⟨m, fun i => ⇑(L i), fun i => ⇑(Lt i), proxF, proxGc, τ, σ, lam⟩ zeroV s).v i = s.v i) :
+    let P : DrP ℝ X Y := ⟨m, fun i => ⇑(L i), fun i => ⇑(Lt i), proxF, proxGc, τ, σ, lam⟩
+    let p1 := (P.half s).1
+    let w1 := (P.half s).2.1
+    let p2 : Nat → Y := fun i => proxGc i (lincomb 1 (s.v i) (σ i / 2) (L i w1));
+    (-(sumAdj (fun i => ⇑(Lt i)) p2 (m - 1)) ∈ subF p1) ∧ ∀ i, L i p1 ∈ subGc i (p2 i) := by
+  intro P p1 w1 p2
+  simp only [DrP.step, DrP.half, hm, if_false] at hx hv
+  -- names for the quantities of the loop body
+  set S := sumAdj (fun i => ⇑(Lt i)) s.v (m - 1) with hS
+  set z0 := lincomb (1 : ℝ) s.x (-τ / 2) S with hz0
+  have hp1 : p1 = proxF z0 := by simp only [p1, P, DrP.half, hm, if_false, hz0, hS]
+  have hw1 : w1 = lincomb (2 : ℝ) p1 (-(1 : ℝ)) s.x := by
+    simp only [w1, p1, P, DrP.half, hm, if_false]
+  rw [← hp1] at hx hv
+  rw [← hw1] at hx hv
+  change ∀ i, lincomb 1 (lincomb 1 (s.v i) lam (lincomb 1 (lincomb 2 (p2 i) (-(1 : ℝ)) (s.v i)) (σ i / 2)
+      ((L i) (lincomb 2 (lincomb 1 w1 (-τ / 2) (sumAdj (fun i => ⇑(Lt i)) (fun i => lincomb 2 (p2 i) (-(1 : ℝ)) (s.v i)) (m - 1))) (-(1 : ℝ)) w1))))
+      (-lam) (p2 i) = s.v i at hv
+  change lincomb 1 (lincomb 1 s.x (-lam) p1) lam (lincomb 1 w1 (-τ / 2)
+      (sumAdj (fun i => ⇑(Lt i)) (fun i => lincomb 2 (p2 i) (-(1 : ℝ)) (s.v i)) (m - 1))) = s.x at hx
+  rw [sumAdj_lin] at hx hv
+  set Pp := sumAdj (fun i => ⇑(Lt i)) p2 (m - 1) with hPp
+  -- z1 = p1
+  have hz1 : lincomb (1 : ℝ) w1 (-τ / 2) ((2 : ℝ) • Pp + (-(1 : ℝ)) • S) = p1 := by
+    have : lam • (lincomb (1 : ℝ) w1 (-τ / 2) ((2 : ℝ) • Pp + (-(1 : ℝ)) • S) - p1) = 0 := by
+      simp only [lincomb] at hx ⊢
+      linear_combination (norm := module) hx
+    rcases smul_eq_zero.mp this with h | h
+    · exact absurd h hlam
+    · exact sub_eq_zero.mp h
+  rw [hz1] at hv
+  -- x = p1 - τ/2 (2 Pp - S)
+  have hxe : s.x = p1 - (τ / 2) • ((2 : ℝ) • Pp - S) := by
+    simp only [lincomb, hw1] at hz1
+    linear_combination (norm := module) (-(1 : ℝ)) • hz1
+  have hr1 : lincomb (2 : ℝ) p1 (-(1 : ℝ)) w1 = s.x := by simp only [lincomb, hw1]; module
+  rw [hr1] at hv
+  have hve : ∀ i, s.v i = p2 i + (σ i / 2) • L i s.x := by
+    intro i
+    have h1 := hv i
+    have : lam • (p2 i + (σ i / 2) • L i s.x - s.v i) = 0 := by
+      simp only [lincomb] at h1
+      linear_combination (norm := module) h1
+    rcases smul_eq_zero.mp this with h | h
+    · exact absurd h hlam
+    · have := sub_eq_zero.mp h; rw [← this]
+  constructor
+  · have h1 := (hF z0 p1).mp hp1.symm
+    have e : τ⁻¹ • (z0 - p1) = -Pp := by
+      have : z0 - p1 = (-τ) • Pp := by
+        simp only [hz0, lincomb]
+        linear_combination (norm := module) hxe
+      rw [this, smul_smul, mul_neg, inv_mul_cancel₀ hτ, neg_smul, one_smul]
+    rw [e] at h1; exact h1
+  · intro i
+    have h1 := (hG i (lincomb 1 (s.v i) (σ i / 2) (L i w1)) (p2 i)).mp rfl
+    have e : (σ i)⁻¹ • (lincomb (1 : ℝ) (s.v i) (σ i / 2) (L i w1) - p2 i) = L i p1 := by
+      have : lincomb (1 : ℝ) (s.v i) (σ i / 2) (L i w1) - p2 i = (σ i) • L i p1 := by
+        simp only [lincomb, hw1, map_add, map_smul]
+        linear_combination (norm := module) hve i
+      rw [this, smul_smul, inv_mul_cancel₀ (hσ i), one_smul]
+    rw [e] at h1; exact h1
 end
 
 /-! ### Non-vacuity -/
